@@ -382,6 +382,7 @@ static IWKV_cursor_op cop_of(const char *s) {
   return 0;
 }
 static IWDB g_basedb[16];   // handles of the shared databases, fixed before the threads start
+static IWDB g_seen[64];     // first handle iwkv_db() returned for a shared id in this case: every later call must return the same
 
 static IWDB shared_db(const char *name) {
   int id = atoi(name);
@@ -468,6 +469,11 @@ static void exec_op(Thr *t, int idx) {
     rc = iwkv_db(g_kv, id, (iwdb_flags_t) atoi(w[2]), &d2); sb_puts(&out, rcname(rc, eb));
     if (!rc && d2) {
       register_db(d2); sb_printf(&out, " flg=%u", (unsigned) d2->dbflg);
+      if (id < 64) {
+        IWDB first = 0;
+        int same = __atomic_compare_exchange_n(&g_seen[id], &first, d2, 0, __ATOMIC_ACQ_REL, __ATOMIC_ACQUIRE) || first == d2;
+        sb_printf(&out, " same=%d", same);
+      }
       if (id < 16) __atomic_store_n(&g_basedb[id], d2, __ATOMIC_RELEASE);
     }
   } else if (!strcmp(k0, "sync")) {
@@ -696,8 +702,8 @@ int main(int argc, char **argv) {
       if (rc) { printf("open-failed %" PRIu64 "\n", (uint64_t) rc); return 2; }
       register_store_locks(g_kv);
       install_resize_hook(g_kv);
-      memset(g_basedb, 0, sizeof g_basedb);
-      for (int i = 1; i <= ndbs && i < 16; ++i) { if (iwkv_db(g_kv, i, 0, &g_basedb[i])) { printf("db-failed\n"); return 2; } register_db(g_basedb[i]); }
+      memset(g_basedb, 0, sizeof g_basedb); memset(g_seen, 0, sizeof g_seen);
+      for (int i = 1; i <= ndbs && i < 16; ++i) { if (iwkv_db(g_kv, i, 0, &g_basedb[i])) { printf("db-failed\n"); return 2; } register_db(g_basedb[i]); g_seen[i] = g_basedb[i]; }
       for (int i = 0; i < MAXT; ++i) { g_thr[i].tid = i; g_thr[i].rec.tid = i; g_thr[i].rec.rs = 1000 + i * 77; g_thr[i].rec.opidx = -1; }
       t_thr = &g_thr[8];
       g_recording = 1;
